@@ -208,6 +208,16 @@ Definition cart_product (h nko : nat) (a b : ght) : ght :=
   fold_left (fun t r => insert nko 0 t r)
             (flat_map (fun x => map (fun y => x ++ y) (riter h b)) (riter h a)) (empty nko).
 
+(* ColtForestNode::force (colt.rs): only a leaf is forced -- a new GhtInner keyed on the first
+   ValType column (column [d], the leaf's depth) over leaves with the remaining columns, filled
+   with `for row in self.into_iter().unwrap() { retval.insert(row) }`; inner nodes give None.
+   (force_drain and the `forced` flag are not modelled.) *)
+Definition force (h d : nat) (t : ght) : option ght :=
+  match h, t with
+  | 0, Leaf rows => Some (fold_left (fun t r => insert 1 d t r) (hs_into_iter rows) (empty 1))
+  | _, _ => None
+  end.
+
 (* ---------------------------------------------------------------- histories on two tries *)
 Inductive gop :=
 | GInsert (w : bool) (r : row)
@@ -221,7 +231,8 @@ Inductive gop :=
 | GHeight (w : bool)
 | GIsBot (w : bool)
 | GJoin (w : bool)                  (* deep join of reg[w] with reg[!w]; rows of the output trie *)
-| GCart (w : bool) (nko : nat).     (* cartesian product into a trie with nko key columns *)
+| GCart (w : bool) (nko : nat)      (* cartesian product into a trie with nko key columns *)
+| GForce (w : bool).                (* COLT force of (a clone of) reg[w]: rows of the forced trie *)
 
 Inductive gans :=
 | GABool (b : bool) | GANum (n : N) | GARows (l : list row) | GAOptRows (o : option (list row))
@@ -241,6 +252,7 @@ Definition gstep (nk : nat) (p : ght * ght) (o : gop) : (ght * ght) * gans :=
   | GIsBot w => (p, GABool (is_bot nk (sel w p)))
   | GJoin w => (p, GARows (riter nk (deep_join nk nk (sel w p) (sel (negb w) p))))
   | GCart w nko => (p, GARows (riter nko (cart_product nk nko (sel w p) (sel (negb w) p))))
+  | GForce w => (p, GAOptRows (option_map (riter 1) (force nk 0 (sel w p))))
   end.
 
 Fixpoint grun_from (nk : nat) (p : ght * ght) (ops : list gop) : list gans :=
@@ -286,6 +298,7 @@ Definition gspec_step (nk : nat) (p : bag * bag) (o : gop) : (bag * bag) * gans 
   | GIsBot w => (p, GABool (Nat.eqb (length (sel w p)) 0))
   | GJoin w => (p, GARows (distinct (join_spec nk (sel w p) (sel (negb w) p))))
   | GCart w nko => (p, GARows (distinct (cart_spec (sel w p) (sel (negb w) p))))
+  | GForce w => (p, GAOptRows (match nk with 0 => Some (distinct (sel w p)) | S _ => None end))
   end.
 Fixpoint gspec_from (nk : nat) (p : bag * bag) (ops : list gop) : list gans :=
   match ops with
